@@ -376,6 +376,12 @@ def run(ctx):
                 cov["samples"].append({"kind": x["kind"], "text": txt(x["text"]), "classes": x["text"],
                                        "model_roundtrip": x["rt"], "model_why": x["why"], "real": res["status"],
                                        "detail": res["detail"]})
+        for i, x, sub, res in results:
+            if len(cov["samples"]) >= 4:
+                break
+            if res["status"] == "ok":
+                cov["samples"].append({"kind": x["kind"], "text": txt(x["text"]), "classes": x["text"],
+                                       "model_roundtrip": x["rt"], "real": res["status"], "detail": res["detail"]})
         if na_plain:
             raise ToolError(f"plain-text cases did not link: {na_plain[:3]}")
         # model (and bash) say the replay sees other words, yet the output is identical: possible (e.g. a
